@@ -6,7 +6,7 @@ from vlib import *
 # spec used for each harness profile
 PROFILE_SPEC = {
     'dec-whole': 'TraceDec', 'dec-cutsets': 'TraceDec', 'dec-random': 'TraceDec', 'dec-bom': 'TraceDec',
-    'dec-replay': 'TraceDec',
+    'dec-replay': 'TraceDec', 'dec-deep': 'TraceDec',
     'enc-sweep': 'TraceEnc', 'enc-pairs': 'TraceEnc', 'enc-cutsets': 'TraceEnc', 'enc-random': 'TraceEnc', 'enc-replay': 'TraceEnc',
 }
 
@@ -86,16 +86,138 @@ COMMON_ASSUMPTIONS = [
 ]
 
 
+def rv(rep, binp, profile, seed, tier, extra=(), tag=None, shards=None):
+    """record profile (with overrides) into its own directory and validate"""
+    outdir = '%s/%s/%s' % (RUN, rep.prop, tag or profile)
+    clean_dir(outdir)
+    st = run_profile(binp, profile, outdir, seed, tier, shards=shards, extra=extra)
+    spec = PROFILE_SPEC[profile]
+    results = validate_traces(spec, st['files'])
+    rep.add_trace_results((tag or profile) + (' ' + ' '.join(extra) if extra else ''), spec, results, st)
+    if st['files']:
+        rep.sample_from(st['files'][len(st['files']) // 2], n=1)
+    handle_trace_violations(rep, results)
+    return results
+
+
 def plan_C01(rep, seed, tier):
     binp = build_harness('default')
-    record_and_validate(rep, binp, 'dec-whole', seed, tier, shards=32 if tier == 'thorough' else 16)
+    rv(rep, binp, 'dec-whole', seed, tier, shards=32 if tier == 'thorough' else 16)
     rep.cov['rule'] = ('whole-stream decodes through decode_to_utf8/utf16 with and without replacement: every 1-byte string x 40 encodings x 4 forms; '
                        'every 2-byte string for the 12 multi-byte/stateful encodings (+ seed-rotated single-byte ones; all 40 in thorough); '
                        'all 3/4-byte strings over per-encoding class alphabets; EUC-JP 8F xx yy, gb18030 four-byte range pointers; seeded grammar strings')
 
 
+def plan_C02(rep, seed, tier):
+    binp = build_harness('default')
+    rv(rep, binp, 'dec-cutsets', seed, tier, shards=32 if tier == 'thorough' else 16)
+    rv(rep, binp, 'dec-random', seed, tier)
+    rv(rep, binp, 'dec-deep', seed, tier, shards=32 if tier == 'thorough' else 16)
+    rep.cov['rule'] = ('all cut sets of every stream of length <= 3 (thorough: 4, plus seeded 5..7) over the per-encoding class alphabet x capacities min..min+3 and 64 '
+                       'x 4 sinks x replacement x empty final call; seeded random histories with re-cuts, empty calls and queried capacities')
+
+
+def plan_C03(rep, seed, tier):
+    binp = build_harness('default')
+    rv(rep, binp, 'enc-sweep', seed, tier, shards=32)
+    rv(rep, binp, 'enc-pairs', seed, tier)
+    rep.cov['exhaustive'] = tier == 'thorough'
+    rep.cov['rule'] = ('every scalar value alone through every encoder from UTF-8 and UTF-16 (BMP exhaustive; astral stride 16 in quick, exhaustive in thorough), '
+                       'set equality of the mapped list with the spec; every ordered pair over a 40-scalar class alphabet (+ lone surrogates) as whole texts; seeded random texts')
+
+
+def plan_C04(rep, seed, tier):
+    binp = build_harness('default')
+    rv(rep, binp, 'enc-cutsets', seed, tier, shards=32 if tier == 'thorough' else 16)
+    rv(rep, binp, 'enc-random', seed, tier)
+    rep.cov['rule'] = ('all cut sets of every text of length <= 3 (thorough: 4) over per-encoder scalar alphabets x capacities around check_space thresholds '
+                       'and NCR_EXTRA x both sources x slice/Vec x replacement; seeded random histories')
+
+
+def plan_C05(rep, seed, tier):
+    binp = build_harness('default')
+    rv(rep, binp, 'dec-cutsets', seed, tier, extra=['--sinks', 'str,string'], tag='dec-cutsets-str')
+    rv(rep, binp, 'dec-random', seed, tier, extra=['--sinks', 'str,string,utf8,utf16'], tag='dec-random-allsinks')
+    rep.cov['rule'] = ('decode_to_str* / decode_to_string* on all cut sets of short class-alphabet streams: destination pre-filled with valid text of 1..4-byte '
+                       'characters, whole destination validated after every call (also after the panic of a reused finished decoder); written prefix validated on every call of every sink')
+
+
+def plan_C06(rep, seed, tier):
+    binp = build_harness('default')
+    rv(rep, binp, 'dec-random', seed, tier, extra=['--twins'], tag='dec-random')
+    rv(rep, binp, 'enc-random', seed, tier, extra=['--twins'], tag='enc-random')
+    rv(rep, binp, 'dec-bom', seed, tier, extra=['--thin', '6' if tier == 'quick' else '2', '--cap', 'min'], tag='dec-bom-min')
+    rv(rep, binp, 'dec-deep', seed, tier, shards=32 if tier == 'thorough' else 16)
+    rep.cov['rule'] = ('contract clauses (read <= src, written <= dst, InputEmpty => all consumed, no panic at documented minimum sizes, String/Vec keep pointer, capacity, '
+                       'old contents, canary bands intact) on every call of random decoder/encoder histories and of the BOM matrix at minimum capacity')
+
+
+def plan_C07(rep, seed, tier):
+    binp = build_harness('default')
+    rv(rep, binp, 'dec-cutsets', seed, tier, extra=['--cap', 'query', '--sinks', 'utf8,utf16'], tag='dec-cutsets-query')
+    rv(rep, binp, 'dec-bom', seed, tier, extra=['--cap', 'query', '--thin', '4' if tier == 'quick' else '1'], tag='dec-bom-query')
+    rv(rep, binp, 'enc-cutsets', seed, tier, extra=['--cap', 'query'], tag='enc-cutsets-query')
+    rep.cov['rule'] = ('every call of the cut-set / BOM-matrix histories is issued with dst.len() == the value the matching max_*_buffer_length query returns on '
+                       'the same converter in its current state for the number of units passed; OutputFull is a violation')
+
+
+def plan_C08(rep, seed, tier):
+    binp = build_harness('default')
+    rv(rep, binp, 'dec-cutsets', seed, tier, extra=['--cap', 'min'], tag='dec-cutsets-min')
+    rv(rep, binp, 'dec-random', seed, tier, extra=['--cap', 'min'], tag='dec-random-min')
+    rv(rep, binp, 'enc-cutsets', seed, tier, extra=['--cap', 'min'], tag='enc-cutsets-min')
+    rv(rep, binp, 'enc-random', seed, tier, extra=['--cap', 'min1'], tag='enc-random-min1')
+    rv(rep, binp, 'dec-deep', seed, tier, extra=['--thin', '2'] if tier == 'quick' else [], tag='dec-deep')
+    rep.cov['rule'] = ('the documented caller loop with minimum (and minimum+1) capacities on all cut sets of short streams/texts and on seeded long ones; '
+                       'zero-progress OutputFull, more than 4*units+16 calls, or no termination within 8*units+64 calls is a violation')
+
+
+def plan_C09(rep, seed, tier):
+    binp = build_harness('default')
+    rv(rep, binp, 'dec-cutsets', seed, tier, extra=['--repl', 'on', '--sinks', 'utf8,utf16'], tag='dec-cutsets-repl')
+    rv(rep, binp, 'enc-cutsets', seed, tier, extra=['--repl', 'on'], tag='enc-cutsets-repl')
+    rv(rep, binp, 'dec-random', seed, tier, extra=['--repl', 'on'], tag='dec-random-repl')
+    rep.cov['rule'] = ('with-replacement methods on cut-set and random histories: output = Standard items with one U+FFFD per error item / one NCR per unmappable atom, '
+                       'had_errors / had_unmappables = an error item / NCR atom was emitted in that call (the monitor aligns output with the Standard item by item); '
+                       'the without-replacement twin histories are validated by the same monitor in C02/C04')
+
+
+def plan_C10(rep, seed, tier):
+    binp = build_harness('default')
+    rv(rep, binp, 'dec-bom', seed, tier, shards=32, extra=['--thin', '2'] if tier == 'quick' else [])
+    rep.cov['rule'] = ('40 nominal encodings x 3 BOM modes x every prefix of length 0..3 over {EF,BB,BF,FE,FF,41,80} x 5 tails x all cut sets of the first 4 bytes '
+                       'x capacities min..min+2 and 64 x both raw sinks x replacement x empty final call')
+
+
+def plan_C12(rep, seed, tier):
+    binp = build_harness('default')
+    rv(rep, binp, 'enc-pairs', seed, tier)
+    rv(rep, binp, 'enc-random', seed, tier, extra=['--repl', 'on'], tag='enc-random-repl')
+    rep.cov['rule'] = ('after every encode call: Standard decoder of the same encoding over all bytes so far reports no error, decodes to the input modulo the fold set, '
+                       'has_pending_state() = state implied by the emitted escapes, ASCII state at the end')
+
+
+def plan_C18(rep, seed, tier):
+    binp = build_harness('default')
+    rv(rep, binp, 'dec-cutsets', seed, tier, extra=['--twins', '--thin', '2' if tier == 'quick' else '1'], tag='dec-cutsets-twins')
+    rv(rep, binp, 'enc-cutsets', seed, tier, extra=['--twins', '--thin', '2' if tier == 'quick' else '1'], tag='enc-cutsets-twins')
+    rv(rep, binp, 'dec-random', seed, tier, extra=['--twins'], tag='dec-random-twins')
+    rep.cov['rule'] = ('every call executed on three converters in lockstep with the destination (incl. String/Vec spare capacity) pre-filled 0x00 / 0xFF / 0xA5; '
+                       'return tuples and dst[..written] must be identical')
+
+
+def plan_C19(rep, seed, tier):
+    binp = build_harness('default')
+    rv(rep, binp, 'dec-bom', seed, tier, extra=['--latin1', '--twins', '--thin', '4' if tier == 'quick' else '1'], tag='dec-bom-latin1')
+    rv(rep, binp, 'dec-random', seed, tier, extra=['--latin1', '--twins'], tag='dec-random-latin1')
+    rv(rep, binp, 'dec-cutsets', seed, tier, extra=['--latin1', '--twins', '--thin', '2' if tier == 'quick' else '1'], tag='dec-cutsets-latin1')
+    rep.cov['rule'] = ('latin1_byte_compatible_up_to asked before every call of BOM-matrix, cut-set and random histories (mid-sequence, BOM pending, after OutputFull / Malformed), '
+                       'judged against the Standard decoder state at the consumed position; twins without the queries must produce identical results')
+
+
 PLANS = {
-    'C01': plan_C01,
+    'C01': plan_C01, 'C02': plan_C02, 'C03': plan_C03, 'C04': plan_C04, 'C05': plan_C05, 'C06': plan_C06, 'C07': plan_C07,
+    'C08': plan_C08, 'C09': plan_C09, 'C10': plan_C10, 'C12': plan_C12, 'C18': plan_C18, 'C19': plan_C19,
 }
 
 
